@@ -25,7 +25,8 @@ Definition fru_of (s : sst) : fru_t :=
 
 Definition fru_agrees (d : bytes) : Prop :=
   match run prog_fru (init d) with
-  | RFall s => parse_fru d = Some (fru_of s, s_rest s) /\ int_of s (L "self.flattenedSize") = fru_flat (fru_of s)
+  | RFall s => parse_fru d = Some (fru_of s, s_rest s) /\
+               geti (s_ints s) (L "self.flattenedSize") = Some (Z.of_N (fru_flat (fru_of s)))
   | RErr => parse_fru d = None
   | _ => False
   end.
@@ -117,7 +118,8 @@ Definition pce_of (s : sst) : pce_t :=
    both the model's rejection *)
 Definition pce_agrees (d : bytes) : Prop :=
   match run prog_pce (init d) with
-  | RFall s => parse_pce d = Some (pce_of s, s_rest s)
+  | RFall s => parse_pce d = Some (pce_of s, s_rest s) /\
+               geti (s_ints s) (L "self.flattenedSize") = Some (Z.of_N (p_size (pce_of s)))
   | RErr => parse_pce d = None
   | RRet false _ => parse_pce d = None
   | _ => False
@@ -170,11 +172,539 @@ Proof.
       destruct (StreamProg.has (N.to_nat (sz - 24)) d) eqn:Hh.
       * erewrite run_mem with (z := (Z.of_N sz - 24)%Z); [|reflexivity|exact Hpos|rewrite Hn; exact Hh].
         norm. rewrite Hn.
-        cbv [pce_of int_of mem_of geti getm s_ints s_mems s_rest text_eqb N.eqb Pos.eqb andb L
-             Ascii.N_of_ascii Ascii.N_of_digits N.add N.mul Pos.add Pos.mul Pos.succ]. rewrite ?N2Z.id. reflexivity.
+        cbv [pce_of p_size int_of mem_of geti getm s_ints s_mems s_rest text_eqb N.eqb Pos.eqb andb L
+             Ascii.N_of_ascii Ascii.N_of_digits N.add N.mul Pos.add Pos.mul Pos.succ]. rewrite ?N2Z.id. split; reflexivity.
       * cbn [run ev geti s_ints text_eqb N.eqb Pos.eqb andb s_rest]. rewrite Hn, Hh.
         destruct (0 <? Z.of_N sz - 24)%Z; reflexivity.
 Qed.
 
-Theorem src_readers_agree : (forall d, fru_agrees d) /\ (forall d, pce_agrees d).
-Proof. split; [exact fru_prog_correct|exact pce_prog_correct]. Qed.
+(* ---------- MRU.__init__ ---------- *)
+(* the values stored under one key, newest first *)
+Fixpoint values_of (m : list (name * Z)) (k : name) : list Z :=
+  match m with
+  | [] => []
+  | (k', x) :: t => if text_eqb k' k then x :: values_of t k else values_of t k
+  end.
+(* what  lst.append(C(a, b))  has collected, in append order *)
+Definition pairs_of (s : sst) (lst : name) : list (N * N) :=
+  rev (combine (map Z.to_N (values_of (s_ints s) (lst ++ [46; 48]%N))) (map Z.to_N (values_of (s_ints s) (lst ++ [46; 49]%N)))).
+
+Definition mru_of (s : sst) : mru_t :=
+  {| m_size := int_of s (L "self.flattenedSize"); m_flags := int_of s (L "self.flags"); m_res := int_of s (L "self.reserved4B");
+     m_list := pairs_of s (L "self.mrus") |}.
+
+Definition mru_agrees (d : bytes) : Prop :=
+  match run prog_mru (init d) with
+  | RFall s => parse_mru d = Some (mru_of s, s_rest s) /\
+               geti (s_ints s) (L "self.flattenedSize") = Some (Z.of_N (m_size (mru_of s)))
+  | RErr => parse_mru d = None
+  | _ => False
+  end.
+
+Definition pair_reader : reader (N * N) := p <- get_int 4 ;; i <- get_int 4 ;; ret (p, i).
+
+Lemma pair_reader_has d : pair_reader d =
+  if StreamProg.has 8 d then Some ((be_val (firstn 4 d) 0, be_val (firstn 4 (skipn 4 d)) 0), skipn 8 d) else None.
+Proof.
+  cbv [pair_reader bind get_int ret]. rewrite (get_mem_has 3 d).
+  destruct (StreamProg.has 4 d) eqn:H4.
+  - cbv beta iota. rewrite (get_mem_has 3 (skipn 4 d)).
+    change 8%nat with (4 + 4)%nat. rewrite has_add, H4. cbn [andb].
+    destruct (StreamProg.has 4 (skipn 4 d)); [|reflexivity]. rewrite skipn_add. reflexivity.
+  - change 8%nat with (4 + 4)%nat. rewrite has_add, H4. reflexivity.
+Qed.
+
+Definition push_pair (lst : name) (ints : list (name * Z)) (pr : N * N) : list (name * Z) :=
+  (lst ++ [46; 49]%N, Z.of_N (snd pr)) :: (lst ++ [46; 48]%N, Z.of_N (fst pr)) :: ints.
+
+Lemma repeat_pairs lst n : forall d i ints mems,
+  iter_body (run (TAppendPair lst (XC 4) (XC 4))) n (mkS d i ints mems) =
+  match read_n n pair_reader d with
+  | Some (l, rest) => RFall (mkS rest (i + 8 * Z.of_nat n) (fold_left (push_pair lst) l ints) mems)
+  | None => RErr
+  end.
+Proof.
+  induction n as [|n IH]; intros d i ints mems.
+  - cbn [iter_body read_n ret]. replace (i + 8 * Z.of_nat 0)%Z with i by lia. reflexivity.
+  - cbn [iter_body read_n]. unfold bind at 1. rewrite pair_reader_has.
+    cbn [run ev]. change (0 <? 4)%Z with true. cbn [andb]. change (Z.to_nat 4 + Z.to_nat 4)%nat with 8%nat. cbn [s_rest].
+    destruct (StreamProg.has 8 d) eqn:H8; [|reflexivity].
+    cbn [s_idx s_ints s_mems]. change (Z.to_nat 4) with 4%nat. rewrite IH. unfold bind.
+    destruct (read_n n pair_reader (skipn 8 d)) as [[l rest]|]; [|reflexivity].
+    cbn [ret fold_left push_pair fst snd]. do 2 f_equal. lia.
+Qed.
+
+Definition mrus : name := L "self.mrus".
+Definition k0 : name := mrus ++ [46; 48]%N.
+Definition k1 : name := mrus ++ [46; 49]%N.
+
+Lemma values_push0 l : forall ints,
+  values_of (fold_left (push_pair mrus) l ints) k0 = rev (map (fun pr => Z.of_N (fst pr)) l) ++ values_of ints k0.
+Proof.
+  induction l as [|pr l IH]; intros ints; [reflexivity|].
+  cbn [fold_left map rev]. rewrite IH. unfold push_pair at 1.
+  change (values_of ((mrus ++ [46; 49]%N, Z.of_N (snd pr)) :: (mrus ++ [46; 48]%N, Z.of_N (fst pr)) :: ints) k0)
+    with (Z.of_N (fst pr) :: values_of ints k0).
+  rewrite <- app_assoc. reflexivity.
+Qed.
+Lemma values_push1 l : forall ints,
+  values_of (fold_left (push_pair mrus) l ints) k1 = rev (map (fun pr => Z.of_N (snd pr)) l) ++ values_of ints k1.
+Proof.
+  induction l as [|pr l IH]; intros ints; [reflexivity|].
+  cbn [fold_left map rev]. rewrite IH. unfold push_pair at 1.
+  change (values_of ((mrus ++ [46; 49]%N, Z.of_N (snd pr)) :: (mrus ++ [46; 48]%N, Z.of_N (fst pr)) :: ints) k1)
+    with (Z.of_N (snd pr) :: values_of ints k1).
+  rewrite <- app_assoc. reflexivity.
+Qed.
+
+Lemma geti_push l k : text_eqb k1 k = false -> text_eqb k0 k = false -> forall ints,
+  geti (fold_left (push_pair mrus) l ints) k = geti ints k.
+Proof.
+  intros H1 H0. induction l as [|pr l IH]; intros ints; [reflexivity|].
+  cbn [fold_left]. rewrite IH. unfold push_pair. cbn [geti]. fold k1 k0. rewrite H1, H0. reflexivity.
+Qed.
+
+Lemma combine_rev_map (l : list (N * N)) :
+  rev (combine (map Z.to_N (rev (map (fun pr => Z.of_N (fst pr)) l))) (map Z.to_N (rev (map (fun pr => Z.of_N (snd pr)) l)))) = l.
+Proof.
+  rewrite <- !map_rev, !map_map.
+  assert (E : forall (m : list (N * N)), combine (map (fun x => Z.to_N (Z.of_N (fst x))) m) (map (fun x => Z.to_N (Z.of_N (snd x))) m) = m).
+  { induction m as [|[a b] m IHm]; cbn; [reflexivity|]. rewrite !N2Z.id, IHm. reflexivity. }
+  rewrite E. apply rev_involutive.
+Qed.
+
+Lemma parse_mru_cons a0 a1 a2 a3 a4 a5 a6 a7 d1 :
+  parse_mru (a0 :: a1 :: a2 :: a3 :: a4 :: a5 :: a6 :: a7 :: d1) =
+  match read_n (N.to_nat (N.land (be_val [a3] 0) 15)) pair_reader d1 with
+  | Some (l, rest) => Some ({| m_size := be_val [a2] 0; m_flags := be_val [a3] 0; m_res := be_val [a4; a5; a6; a7] 0; m_list := l |}, rest)
+  | None => None
+  end.
+Proof. reflexivity. Qed.
+
+Lemma run_repeat e body s z : ev e s = Some z -> run (TRepeat e body) s = iter_body (run body) (Z.to_nat z) s.
+Proof. intros H. cbn [run]. rewrite H. reflexivity. Qed.
+
+Theorem mru_prog_correct : forall d, mru_agrees d.
+Proof.
+  intro d. unfold mru_agrees.
+  do 8 (destruct d as [|?a d]; [cbv -[be_val Z.of_N]; reflexivity|]).
+  rewrite parse_mru_cons. unfold prog_mru, init.
+  do 5 step.
+  generalize (be_val [a2] 0) (be_val [a1] 0) (be_val [a; a0] 0) (be_val [a3; a4; a5; a6] 0). intros fl sz ty rs.
+  erewrite run_repeat with (z := Z.of_N (N.land fl 15)).
+  2:{ cbn [ev geti s_ints text_eqb N.eqb Pos.eqb andb]. change 15%Z with (Z.of_N 15). rewrite land_of_N. reflexivity. }
+  replace (Z.to_nat (Z.of_N (N.land fl 15))) with (N.to_nat (N.land fl 15)) by lia.
+  rewrite repeat_pairs.
+  destruct (read_n (N.to_nat (N.land fl 15)) pair_reader d) as [[l rest]|]; [|reflexivity].
+  cbn [s_rest]. split.
+  2:{ cbn [s_ints mru_of m_size]. unfold int_of. cbn [s_ints]. fold mrus. rewrite !geti_push by reflexivity.
+      cbv [geti text_eqb N.eqb Pos.eqb andb L Ascii.N_of_ascii Ascii.N_of_digits N.add N.mul Pos.add Pos.mul Pos.succ].
+      rewrite !N2Z.id. reflexivity. }
+  f_equal. f_equal.
+  unfold mru_of, pairs_of, int_of. cbn [s_ints].
+  fold mrus. fold k0 k1. rewrite values_push0, values_push1.
+  rewrite !geti_push by reflexivity.
+  repeat match goal with |- context [values_of ?m ?k] =>
+    match m with _ :: _ => change (values_of m k) with (@nil Z) end end.
+  rewrite !app_nil_r, combine_rev_map.
+  cbv [geti text_eqb N.eqb Pos.eqb andb L Ascii.N_of_ascii Ascii.N_of_digits N.add N.mul Pos.add Pos.mul Pos.succ].
+  rewrite !N2Z.id. reflexivity.
+Qed.
+
+(* ---------- Callout.__init__: the part before the substructure loop ---------- *)
+Definition head_agrees (d : bytes) : Prop :=
+  match run prog_callout_head (init d) with
+  | RFall s =>
+      callout_head d = Some ((int_of s (L "self.size"), int_of s (L "self.flags"), int_of s (L "self.priority"),
+                              mem_of s (L "self.locationCode")), s_rest s) /\
+      int_of s (L "currentSize") = (4 + N.of_nat (length (mem_of s (L "self.locationCode"))))%N
+  | RErr => callout_head d = None
+  | _ => False
+  end.
+
+Lemma callout_head_cons a0 a1 a2 a3 d1 :
+  callout_head (a0 :: a1 :: a2 :: a3 :: d1) =
+  let ll := be_val [a3] 0 in
+  match (if (0 <? ll)%N then get_memN ll d1 else Some ([], d1)) with
+  | Some (loc, d2) => Some ((be_val [a0] 0, be_val [a1] 0, be_val [a2] 0, loc), d2)
+  | None => None
+  end.
+Proof.
+  cbv zeta. unfold callout_head. cbv -[be_val N.ltb get_memN].
+  destruct (0 <? be_val [a3] 0)%N; reflexivity.
+Qed.
+
+Lemma run_pure s : run TPure s = RFall s.
+Proof. reflexivity. Qed.
+
+Theorem head_prog_correct : forall d, head_agrees d.
+Proof.
+  intro d. unfold head_agrees.
+  do 4 (destruct d as [|?a d]; [cbv -[be_val Z.of_N]; reflexivity|]).
+  rewrite callout_head_cons. cbv zeta. unfold prog_callout_head, init.
+  do 5 step.
+  generalize (be_val [a2] 0) (be_val [a1] 0) (be_val [a0] 0) (be_val [a] 0). intros ll pr fl sz.
+  rewrite run_seq_eq. erewrite run_if with (b := (0 <? Z.of_N ll)%Z) by reflexivity.
+  replace (0 <? ll)%N with (0 <? Z.of_N ll)%Z by lia.
+  destruct (0 <? Z.of_N ll)%Z eqn:E.
+  - rewrite get_memN_has. assert (Hpos : (0 < Z.of_N ll)%Z) by lia.
+    destruct (N.eqb_spec ll 0) as [E0|E0]; [lia|].
+    destruct (StreamProg.has (N.to_nat ll) d) eqn:Hh.
+    + erewrite run_mem with (z := Z.of_N ll); [|reflexivity|exact Hpos|rewrite to_nat_of_N; exact Hh].
+      norm. rewrite to_nat_of_N. do 3 (rewrite run_seq_eq, run_pure; cbv beta iota).
+      erewrite run_let with (z := (4 + Z.of_N ll)%Z) by reflexivity. norm.
+      split.
+      * cbv [int_of mem_of geti getm s_ints s_mems s_rest text_eqb N.eqb Pos.eqb andb L
+             Ascii.N_of_ascii Ascii.N_of_digits N.add N.mul Pos.add Pos.mul Pos.succ].
+        rewrite ?N2Z.id. reflexivity.
+      * match goal with |- int_of ?s ?k = (4 + N.of_nat (length (mem_of ?s2 ?k2)))%N =>
+          change (int_of s k) with (Z.to_N (4 + Z.of_N ll)); change (mem_of s2 k2) with (firstn (N.to_nat ll) d) end.
+        rewrite (firstn_len_has _ _ Hh). lia.
+    + cbn [run ev geti s_ints s_rest text_eqb N.eqb Pos.eqb andb]. rewrite to_nat_of_N, Hh.
+      destruct (0 <? Z.of_N ll)%Z; reflexivity.
+  - rewrite run_nop. norm. do 3 (rewrite run_seq_eq, run_pure; cbv beta iota).
+    erewrite run_let with (z := (4 + Z.of_N ll)%Z) by reflexivity. norm.
+    split.
+    + cbv [int_of mem_of geti getm s_ints s_mems s_rest text_eqb N.eqb Pos.eqb andb L
+           Ascii.N_of_ascii Ascii.N_of_digits N.add N.mul Pos.add Pos.mul Pos.succ].
+      rewrite ?N2Z.id. reflexivity.
+    + match goal with |- int_of ?s ?k = (4 + N.of_nat (length (mem_of ?s2 ?k2)))%N =>
+        change (int_of s k) with (Z.to_N (4 + Z.of_N ll)); change (mem_of s2 k2) with (@nil N) end.
+      cbn [length]. lia.
+Qed.
+
+(* ---------- attribute names across a constructor call ---------- *)
+Definition self4 : name := [115; 101; 108; 102]%N.
+
+Lemma text_eqb_refl a : text_eqb a a = true.
+Proof. induction a as [|x a IH]; cbn; [reflexivity|]. rewrite N.eqb_refl, IH. reflexivity. Qed.
+
+Lemma text_eqb_app v a b : text_eqb (v ++ a) (v ++ b) = text_eqb a b.
+Proof. induction v as [|x v IH]; cbn; [reflexivity|]. rewrite N.eqb_refl. exact IH. Qed.
+
+(* a key with the prefix "self." is "self" followed by something that begins with a dot *)
+Lemma prefix_self k : is_prefix self_dot k = true -> exists k2, k = self4 ++ (46%N :: k2).
+Proof.
+  unfold self_dot, self4. intros H.
+  do 5 (destruct k as [|?c k]; [cbn in H; try discriminate H; repeat (rewrite ?andb_false_r in H; try discriminate H)|]).
+  cbn [is_prefix] in H.
+  repeat match goal with H : (_ && _) = true |- _ => apply andb_prop in H; destruct H as [? H] end.
+  repeat match goal with H : N.eqb _ _ = true |- _ => apply N.eqb_eq in H; subst end.
+  exists k. reflexivity.
+Qed.
+
+Lemma noprefix_self k k' : is_prefix self_dot k = false -> text_eqb k (self4 ++ 46%N :: k') = false.
+Proof.
+  unfold self_dot, self4. intros H. cbn [app].
+  do 5 (destruct k as [|?c k]; [cbn; rewrite ?andb_false_r; reflexivity|cbn [is_prefix] in H; cbn [text_eqb]]).
+  destruct (N.eqb 115 c) eqn:E1; [|rewrite N.eqb_sym, E1; reflexivity]. apply N.eqb_eq in E1; subst c.
+  destruct (N.eqb 101 c0) eqn:E2; [|rewrite (N.eqb_sym c0), E2; cbn; reflexivity]. apply N.eqb_eq in E2; subst c0.
+  destruct (N.eqb 108 c1) eqn:E3; [|rewrite (N.eqb_sym c1), E3; cbn; reflexivity]. apply N.eqb_eq in E3; subst c1.
+  destruct (N.eqb 102 c2) eqn:E4; [|rewrite (N.eqb_sym c2), E4; cbn; reflexivity]. apply N.eqb_eq in E4; subst c2.
+  destruct (N.eqb 46 c3) eqn:E5; [|rewrite (N.eqb_sym c3), E5; cbn; reflexivity]. cbn in H. discriminate H.
+Qed.
+
+Section Assoc.
+  Context {A : Type}.
+  Fixpoint gassoc (m : list (name * A)) (v : name) : option A :=
+    match m with
+    | [] => None
+    | (k, x) :: t => if text_eqb k v then Some x else gassoc t v
+    end.
+
+  Lemma gassoc_rename v m r k' :
+    gassoc (rename_keys v m ++ r) (v ++ 46%N :: k') =
+    match gassoc m (self4 ++ 46%N :: k') with Some x => Some x | None => gassoc r (v ++ 46%N :: k') end.
+  Proof.
+    induction m as [|[k x] m IH]; [reflexivity|].
+    cbn [rename_keys gassoc]. destruct (is_prefix self_dot k) eqn:P.
+    - destruct (prefix_self k P) as [k2 ->].
+      change (skipn 4 (self4 ++ 46%N :: k2)) with (46%N :: k2).
+      cbn [app gassoc]. fold (self4 ++ 46%N :: k2). rewrite !text_eqb_app.
+      destruct (text_eqb (46%N :: k2) (46%N :: k')); [reflexivity|exact IH].
+    - rewrite (noprefix_self k k' P). exact IH.
+  Qed.
+End Assoc.
+
+Lemma geti_gassoc m v : geti m v = gassoc m v.
+Proof. induction m as [|[k x] m IH]; cbn; [reflexivity|]. rewrite IH. reflexivity. Qed.
+Lemma getm_gassoc m v : getm m v = gassoc m v.
+Proof. induction m as [|[k x] m IH]; cbn; [reflexivity|]. rewrite IH. reflexivity. Qed.
+
+Lemma geti_rename v m r k' :
+  geti (rename_keys v m ++ r) (v ++ 46%N :: k') =
+  match geti m (self4 ++ 46%N :: k') with Some x => Some x | None => geti r (v ++ 46%N :: k') end.
+Proof. rewrite !geti_gassoc. apply gassoc_rename. Qed.
+Lemma getm_rename v m r k' :
+  getm (rename_keys v m ++ r) (v ++ 46%N :: k') =
+  match getm m (self4 ++ 46%N :: k') with Some x => Some x | None => getm r (v ++ 46%N :: k') end.
+Proof. rewrite !getm_gassoc. apply gassoc_rename. Qed.
+
+(* ---------- Callout.__init__: one round of the substructure loop ---------- *)
+Definition vfru : name := L "self.fruIdentity".
+Definition vpce : name := L "self.pceIdentity".
+Definition vmru : name := L "self.mru".
+
+Definition loop_state (d : bytes) (size cur : N) : sst :=
+  mkS d 0 [(L "currentSize", Z.of_N cur); (L "self.size", Z.of_N size)] [].
+
+Definition fru_at (s : sst) : fru_t :=
+  {| f_size := int_of s (vfru ++ 46%N :: L "size"); f_flags := int_of s (vfru ++ 46%N :: L "flags"); f_pn := mem_of s (vfru ++ 46%N :: L "pnOrProcedureID");
+     f_ccin := mem_of s (vfru ++ 46%N :: L "ccin"); f_sn := mem_of s (vfru ++ 46%N :: L "sn") |}.
+Definition pce_at (s : sst) : pce_t :=
+  {| p_size := int_of s (vpce ++ 46%N :: L "flattenedSize"); p_flags := int_of s (vpce ++ 46%N :: L "flags"); p_mtm := mem_of s (vpce ++ 46%N :: L "machineType");
+     p_sn := mem_of s (vpce ++ 46%N :: L "serialNumber"); p_name := mem_of s (vpce ++ 46%N :: L "pceName") |}.
+Definition mru_at (s : sst) : mru_t :=
+  {| m_size := int_of s (vmru ++ 46%N :: L "flattenedSize"); m_flags := int_of s (vmru ++ 46%N :: L "flags"); m_res := int_of s (vmru ++ 46%N :: L "reserved4B");
+     m_list := pairs_of s (vmru ++ 46%N :: L "mrus") |}.
+
+(* lookups in the caller after  v = C(stream) *)
+Definition early_tail : name := [46; 95; 95; 101; 97; 114; 108; 121]%N.
+Lemma int_after_call v e s s' k' : text_eqb early_tail (46%N :: k') = false -> geti (s_ints s) (v ++ 46%N :: k') = None ->
+  int_of (after_call v e s s') (v ++ 46%N :: k') = int_of s' (self4 ++ 46%N :: k').
+Proof.
+  intros He Hn. unfold int_of, after_call. cbn [s_ints geti].
+  unfold early_key. fold early_tail. rewrite text_eqb_app, He, geti_rename, Hn.
+  destruct (geti (s_ints s') (self4 ++ 46%N :: k')); reflexivity.
+Qed.
+Lemma mem_after_call v e s s' k' : getm (s_mems s) (v ++ 46%N :: k') = None ->
+  mem_of (after_call v e s s') (v ++ 46%N :: k') = mem_of s' (self4 ++ 46%N :: k').
+Proof.
+  intros Hn. unfold mem_of, after_call. cbn [s_mems]. rewrite getm_rename, Hn.
+  destruct (getm (s_mems s') (self4 ++ 46%N :: k')); reflexivity.
+Qed.
+Lemma early_after_call v e s s' : geti (s_ints (after_call v e s s')) (early_key v) = Some e.
+Proof. unfold after_call. cbn [s_ints geti]. rewrite text_eqb_refl. reflexivity. Qed.
+
+Lemma values_rename v m r k' :
+  values_of (rename_keys v m ++ r) (v ++ 46%N :: k') = values_of m (self4 ++ 46%N :: k') ++ values_of r (v ++ 46%N :: k').
+Proof.
+  induction m as [|[k x] m IH]; [reflexivity|].
+  cbn [rename_keys values_of]. destruct (is_prefix self_dot k) eqn:P.
+  - destruct (prefix_self k P) as [k2 ->].
+    change (skipn 4 (self4 ++ 46%N :: k2)) with (46%N :: k2).
+    cbn [app values_of]. fold (self4 ++ 46%N :: k2). rewrite !text_eqb_app.
+    destruct (text_eqb (46%N :: k2) (46%N :: k')); cbn [app]; rewrite IH; reflexivity.
+  - rewrite (noprefix_self k k' P). exact IH.
+Qed.
+
+Lemma text_eqb_prefix_false v x k : is_prefix v k = false -> text_eqb (v ++ x) k = false.
+Proof.
+  revert k; induction v as [|a v IH]; intros k H; [discriminate H|].
+  destruct k as [|b k]; [reflexivity|]. cbn [is_prefix] in H. cbn [app text_eqb].
+  destruct (N.eqb a b); [cbn in *; apply IH; exact H|reflexivity].
+Qed.
+Lemma geti_rename_other v m r k : is_prefix v k = false -> geti (rename_keys v m ++ r) k = geti r k.
+Proof.
+  intros H. induction m as [|[k0 x] m IH]; [reflexivity|].
+  cbn [rename_keys]. destruct (is_prefix self_dot k0); [|exact IH].
+  cbn [app geti]. rewrite (text_eqb_prefix_false v _ k H). exact IH.
+Qed.
+
+(* the caller's state after  v = C(stream); currentSize += v.flattenedSize  *)
+Lemma run1_call pe v c q s : lookup_prog pe c = Some q -> uses_idx q = false ->
+  run1 pe (TCall v c) s =
+  match run q (init (s_rest s)) with
+  | RFall s' => RFall (after_call v 0 s s')
+  | RRet _ s' => RFall (after_call v 1 s s')
+  | _ => RErr
+  end.
+Proof. intros H1 H2. cbn [run1]. rewrite H1, H2. reflexivity. Qed.
+
+Definition csz : name := L "currentSize".
+Definition add_state (v : name) (e : Z) (S s' : sst) (c : Z) : sst :=
+  mkS (s_rest s') (s_idx S + s_idx s') ((csz, c) :: s_ints (after_call v e S s')) (s_mems (after_call v e S s')).
+
+Lemma call_add v e S s' z c0 fk :
+  fk = v ++ 46%N :: L "flattenedSize" ->
+  geti (s_ints s') (L "self.flattenedSize") = Some z ->
+  geti (s_ints S) csz = Some c0 -> is_prefix v csz = false ->
+  run (TLet csz (XAdd (XV csz) (XV fk))) (after_call v e S s') = RFall (add_state v e S s' (c0 + z)).
+Proof.
+  intros -> Hz Hc Hp. erewrite run_let with (z := (c0 + z)%Z); [reflexivity|].
+  cbn [ev]. unfold after_call at 1. cbn [s_ints geti].
+  unfold early_key at 1. rewrite (text_eqb_prefix_false v _ csz Hp), (geti_rename_other v _ _ csz Hp), Hc.
+  unfold after_call. cbn [s_ints geti]. unfold early_key. fold early_tail. rewrite text_eqb_app.
+  change (text_eqb early_tail (46%N :: L "flattenedSize")) with false. cbv beta iota.
+  rewrite geti_rename. change (self4 ++ 46%N :: L "flattenedSize") with (L "self.flattenedSize"). rewrite Hz. reflexivity.
+Qed.
+
+Lemma int_add_state v e S s' c k' :
+  text_eqb csz (v ++ 46%N :: k') = false -> text_eqb early_tail (46%N :: k') = false -> geti (s_ints S) (v ++ 46%N :: k') = None ->
+  int_of (add_state v e S s' c) (v ++ 46%N :: k') = int_of s' (self4 ++ 46%N :: k').
+Proof.
+  intros H1 H2 H3. rewrite <- (int_after_call v e S s' k' H2 H3).
+  unfold int_of, add_state. cbn [s_ints geti]. rewrite H1. reflexivity.
+Qed.
+Lemma mem_add_state v e S s' c k' : getm (s_mems S) (v ++ 46%N :: k') = None ->
+  mem_of (add_state v e S s' c) (v ++ 46%N :: k') = mem_of s' (self4 ++ 46%N :: k').
+Proof. intros H. rewrite <- (mem_after_call v e S s' k' H). reflexivity. Qed.
+Lemma other_add_state v e S s' c k : text_eqb csz k = false -> is_prefix v k = false ->
+  geti (s_ints (add_state v e S s' c)) k = geti (s_ints S) k.
+Proof.
+  intros H1 H2. unfold add_state, after_call. cbn [s_ints geti]. rewrite H1.
+  unfold early_key. rewrite (text_eqb_prefix_false v _ k H2). apply geti_rename_other. exact H2.
+Qed.
+Lemma early_add_state v e S s' c : text_eqb csz (early_key v) = false ->
+  geti (s_ints (add_state v e S s' c)) (early_key v) = Some e.
+Proof. intros H. unfold add_state, after_call. cbn [s_ints geti]. rewrite H, text_eqb_refl. reflexivity. Qed.
+Lemma csz_add_state v e S s' c : int_of (add_state v e S s' c) csz = Z.to_N c.
+Proof. unfold int_of, add_state. cbn [s_ints geti]. change (text_eqb csz csz) with true. reflexivity. Qed.
+
+Lemma values_add_state v e S s' c k' :
+  text_eqb csz (v ++ 46%N :: k') = false -> text_eqb early_tail (46%N :: k') = false -> values_of (s_ints S) (v ++ 46%N :: k') = [] ->
+  values_of (s_ints (add_state v e S s' c)) (v ++ 46%N :: k') = values_of (s_ints s') (self4 ++ 46%N :: k').
+Proof.
+  intros H1 H2 H3. unfold add_state, after_call. cbn [s_ints values_of]. rewrite H1.
+  unfold early_key. fold early_tail. rewrite text_eqb_app, H2, values_rename, H3. apply app_nil_r.
+Qed.
+
+Definition body_sub (s' : sst) : option sub_t :=
+  let t := int_of s' (L "type") in
+  if (t =? 18756)%N then Some (SubFru (fru_at s'))
+  else if (t =? 20549)%N then Some (SubPce (pce_at s'))
+  else if (t =? 19794)%N then Some (SubMru (mru_at s'))
+  else None.
+Definition early_of (s' : sst) (v : name) : bool :=
+  match geti (s_ints s') (early_key v) with Some 1%Z => true | _ => false end.
+Definition body_early (s' : sst) : bool := early_of s' vfru || early_of s' vpce || early_of s' vmru.
+
+Definition subs_step (f : nat) (size cur : N) (acc : list sub_t) (d : bytes) : option (option (list sub_t) * bytes) :=
+  match evc guard_callout (loop_state d size cur) with
+  | Some false => Some (Some (rev acc), d)
+  | Some true =>
+      match run1 callee_progs prog_callout_body (loop_state d size cur) with
+      | RBrk _ => Some (Some (rev acc), d)
+      | RFall s' =>
+          if body_early s' then None
+          else match body_sub s' with
+               | Some sub => parse_subs f size (int_of s' (L "currentSize")) (sub :: acc) (s_rest s')
+               | None => None
+               end
+      | _ => None
+      end
+  | None => None
+  end.
+
+Lemma run1_seq pe a b s : run1 pe (TSeq a b) s = match run1 pe a s with RFall s' => run1 pe b s' | r => r end.
+Proof. reflexivity. Qed.
+Lemma run1_if pe c th el s b : evc c s = Some b -> run1 pe (TIf c th el) s = if b then run1 pe th s else run1 pe el s.
+Proof. intros H. cbn [run1]. rewrite H. destruct b; reflexivity. Qed.
+
+Theorem subs_step_correct : forall f size cur acc d, parse_subs (S f) size cur acc d = subs_step f size cur acc d.
+Proof.
+  intros f size cur acc d. unfold subs_step. cbn [parse_subs].
+  change (evc guard_callout (loop_state d size cur)) with (Some (Z.of_N cur <? Z.of_N size)%Z).
+  replace (cur <? size)%N with (Z.of_N cur <? Z.of_N size)%Z by lia.
+  destruct (Z.of_N cur <? Z.of_N size)%Z eqn:G; [|reflexivity].
+  unfold prog_callout_body. rewrite run1_seq.
+  change (run1 callee_progs (TLet ?v XPeek2) (loop_state d size cur))
+    with (RFall (mkS d 0 ((v, Z.of_N (be_val (firstn 2 d) 0)) :: s_ints (loop_state d size cur)) [])).
+  cbv beta iota. unfold bind at 1. unfold peek2 at 1.
+  generalize (be_val (firstn 2 d) 0). intro t. unfold loop_state. cbn [s_ints].
+  set (S := mkS d 0 [(L "type", Z.of_N t); (L "currentSize", Z.of_N cur); (L "self.size", Z.of_N size)] []).
+  change (mkS d 0 _ []) with S.
+  erewrite run1_if with (b := (Z.of_N t =? 18756)%Z) by reflexivity.
+  replace (t =? 18756)%N with (Z.of_N t =? 18756)%Z by lia.
+  destruct (Z.of_N t =? 18756)%Z eqn:T1.
+  { (* 'ID': a FRU identity *)
+    rewrite run1_seq. rewrite (run1_call _ _ _ prog_fru) by reflexivity. change (s_rest S) with d.
+    pose proof (fru_prog_correct d) as F. unfold fru_agrees in F. unfold bind at 1.
+    destruct (run prog_fru (init d)) as [s'|b s'|s'|s'|] eqn:R; try contradiction.
+    - destruct F as [F1 F2]. rewrite F1.
+      change (run1 callee_progs ?p ?s) with (run p s).
+      erewrite (call_add vfru 0 S s' _ (Z.of_N cur)) by (reflexivity || exact F2).
+      set (s2 := add_state vfru 0 S s' (Z.of_N cur + Z.of_N (fru_flat (fru_of s')))).
+      assert (E0 : body_early s2 = false).
+      { unfold body_early, early_of. unfold s2.
+        rewrite (early_add_state vfru) by reflexivity.
+        rewrite !(other_add_state vfru) by reflexivity. reflexivity. }
+      rewrite E0.
+      assert (ET : int_of s2 (L "type") = t).
+      { unfold int_of, s2. rewrite (other_add_state vfru) by reflexivity. cbn. apply N2Z.id. }
+      unfold body_sub. cbv zeta. rewrite ET.
+      replace (t =? 18756)%N with true by lia.
+      assert (EF : fru_at s2 = fru_of s').
+      { unfold fru_at, fru_of, s2.
+        rewrite !(int_add_state vfru 0 S s' _) by reflexivity.
+        rewrite !(mem_add_state vfru 0 S s' _) by reflexivity. reflexivity. }
+      rewrite EF. unfold s2 at 1. change (L "currentSize") with csz. rewrite csz_add_state.
+      replace (Z.to_N (Z.of_N cur + Z.of_N (fru_flat (fru_of s')))) with (cur + fru_flat (fru_of s'))%N by lia.
+      reflexivity.
+    - rewrite F. reflexivity. }
+  erewrite run1_if with (b := (Z.of_N t =? 20549)%Z) by reflexivity.
+  replace (t =? 20549)%N with (Z.of_N t =? 20549)%Z by lia.
+  destruct (Z.of_N t =? 20549)%Z eqn:T2.
+  { (* 'PE': a PCE identity *)
+    rewrite run1_seq. rewrite (run1_call _ _ _ prog_pce) by reflexivity. change (s_rest S) with d.
+    pose proof (pce_prog_correct d) as F. unfold pce_agrees in F. unfold bind at 1.
+    destruct (run prog_pce (init d)) as [s'|b s'|s'|s'|] eqn:R; try contradiction.
+    - destruct F as [F1 F2]. rewrite F1.
+      change (run1 callee_progs ?p ?s) with (run p s).
+      erewrite (call_add vpce 0 S s' _ (Z.of_N cur)) by (reflexivity || exact F2).
+      set (s2 := add_state vpce 0 S s' (Z.of_N cur + Z.of_N (p_size (pce_of s')))).
+      assert (E0 : body_early s2 = false).
+      { unfold body_early, early_of. unfold s2.
+        rewrite (early_add_state vpce) by reflexivity.
+        rewrite !(other_add_state vpce) by reflexivity. reflexivity. }
+      rewrite E0.
+      assert (ET : int_of s2 (L "type") = t).
+      { unfold int_of, s2. rewrite (other_add_state vpce) by reflexivity. cbn. apply N2Z.id. }
+      unfold body_sub. cbv zeta. rewrite ET.
+      replace (t =? 18756)%N with false by lia. replace (t =? 20549)%N with true by lia.
+      assert (EF : pce_at s2 = pce_of s').
+      { unfold pce_at, pce_of, s2.
+        rewrite !(int_add_state vpce 0 S s' _) by reflexivity.
+        rewrite !(mem_add_state vpce 0 S s' _) by reflexivity. reflexivity. }
+      rewrite EF. unfold s2 at 1. change (L "currentSize") with csz. rewrite csz_add_state.
+      replace (Z.to_N (Z.of_N cur + Z.of_N (p_size (pce_of s')))) with (cur + p_size (pce_of s'))%N by lia.
+      reflexivity.
+    - (* the constructor returned early: the object lacks pceName, the model rejects *)
+      destruct b; [contradiction|]. rewrite F.
+      change (run1 callee_progs ?p ?s) with (run p s). cbn [run].
+      let v := eval cbv in vpce in change v with vpce.
+      match goal with |- context [ev ?e (after_call vpce 1 S s')] => destruct (ev e (after_call vpce 1 S s')) as [z|] end; [|reflexivity].
+      match goal with |- None = (if body_early ?s2 then _ else _) => assert (E1 : body_early s2 = true) end.
+      { unfold body_early, early_of. cbn [s_ints s_rest s_idx s_mems].
+        change (geti ((?k, ?x) :: s_ints (after_call vpce 1 S s')) (early_key vpce))
+          with (geti (s_ints (after_call vpce 1 S s')) (early_key vpce)).
+        rewrite early_after_call. apply orb_true_iff. left. apply orb_true_r. }
+      rewrite E1. reflexivity.
+    - rewrite F. reflexivity. }
+  erewrite run1_if with (b := (Z.of_N t =? 19794)%Z) by reflexivity.
+  replace (t =? 19794)%N with (Z.of_N t =? 19794)%Z by lia.
+  destruct (Z.of_N t =? 19794)%Z eqn:T3; [|reflexivity].
+  (* 'MR': a MRU list *)
+  rewrite run1_seq. rewrite (run1_call _ _ _ prog_mru) by reflexivity. change (s_rest S) with d.
+  pose proof (mru_prog_correct d) as F. unfold mru_agrees in F. unfold bind at 1.
+  destruct (run prog_mru (init d)) as [s'|b s'|s'|s'|] eqn:R; try contradiction.
+  - destruct F as [F1 F2]. rewrite F1.
+    change (run1 callee_progs ?p ?s) with (run p s).
+    erewrite (call_add vmru 0 S s' _ (Z.of_N cur)) by (reflexivity || exact F2).
+    set (s2 := add_state vmru 0 S s' (Z.of_N cur + Z.of_N (m_size (mru_of s')))).
+    assert (E0 : body_early s2 = false).
+    { unfold body_early, early_of. unfold s2.
+      rewrite (early_add_state vmru) by reflexivity.
+      rewrite !(other_add_state vmru) by reflexivity. reflexivity. }
+    rewrite E0.
+    assert (ET : int_of s2 (L "type") = t).
+    { unfold int_of, s2. rewrite (other_add_state vmru) by reflexivity. cbn. apply N2Z.id. }
+    unfold body_sub. cbv zeta. rewrite ET.
+    replace (t =? 18756)%N with false by lia. replace (t =? 20549)%N with false by lia. replace (t =? 19794)%N with true by lia.
+    assert (EF : mru_at s2 = mru_of s').
+    { unfold mru_at, mru_of, s2.
+      rewrite !(int_add_state vmru 0 S s' _) by reflexivity.
+      unfold pairs_of.
+      change ((vmru ++ 46%N :: L "mrus") ++ [46; 48]%N) with (vmru ++ 46%N :: (L "mrus" ++ [46; 48]%N)).
+      change ((vmru ++ 46%N :: L "mrus") ++ [46; 49]%N) with (vmru ++ 46%N :: (L "mrus" ++ [46; 49]%N)).
+      rewrite !(values_add_state vmru 0 S s' _) by reflexivity. reflexivity. }
+    rewrite EF. unfold s2 at 1. change (L "currentSize") with csz. rewrite csz_add_state.
+    replace (Z.to_N (Z.of_N cur + Z.of_N (m_size (mru_of s')))) with (cur + m_size (mru_of s'))%N by lia.
+    reflexivity.
+  - rewrite F. reflexivity.
+Qed.
+
+Theorem src_readers_agree :
+  (forall d, fru_agrees d) /\ (forall d, pce_agrees d) /\ (forall d, mru_agrees d) /\ (forall d, head_agrees d) /\
+  (forall f size cur acc d, parse_subs (S f) size cur acc d = subs_step f size cur acc d).
+Proof. repeat split; [exact fru_prog_correct|exact pce_prog_correct|exact mru_prog_correct|exact head_prog_correct|exact subs_step_correct]. Qed.
